@@ -9,6 +9,7 @@ pub fn dispatch(op: &str, case: &Value) -> Value {
         "versioned_server" => op_versioned_server(case),
         "path" => op_path(case),
         "body" => op_body(case),
+        "multipart_body" => op_multipart_body(case),
         "http_error" => op_http_error(case),
         "status_code" => op_status_code(case),
         "status_scan" => op_status_scan(case),
@@ -257,6 +258,51 @@ async fn body_typed(_rqctx: RequestContext<()>, body: TypedBody<String>) -> Resu
     Ok(HttpResponseOk(n))
 }
 
+#[endpoint { method = PUT, path = "/multipart" }]
+async fn body_multipart(_rqctx: RequestContext<()>, mut body: dropshot::MultipartBody) -> Result<HttpResponseOk<usize>, HttpError> {
+    let mut n = 0usize;
+    loop {
+        match body.content.next_field().await {
+            Ok(Some(mut field)) => loop {
+                match field.chunk().await {
+                    Ok(Some(c)) => {
+                        n += c.len();
+                        SEEN_MAX.fetch_max(n, Ordering::SeqCst);
+                    }
+                    Ok(None) => break,
+                    Err(e) => return Err(HttpError::for_bad_request(None, format!("multipart: {}", e))),
+                }
+            },
+            Ok(None) => break,
+            Err(e) => return Err(HttpError::for_bad_request(None, format!("multipart: {}", e))),
+        }
+    }
+    Ok(HttpResponseOk(n))
+}
+
+/// {"op":"multipart_body","field_len":n,"default":n,"override":n|null} -> {"status","seen_max","body_len"}: one form field of
+/// `field_len` bytes; `seen_max` = field bytes the handler observed
+fn op_multipart_body(case: &Value) -> Value {
+    let n = case["field_len"].as_u64().unwrap() as usize;
+    let default = case["default"].as_u64().unwrap() as usize;
+    let mut e: ApiEndpoint<()> = ApiEndpoint::from(body_multipart);
+    e.request_body_max_bytes = case["override"].as_u64().map(|x| x as usize);
+    let mut api = ApiDescription::new();
+    api.register(e).unwrap();
+    let mut payload = b"--B\r\nContent-Disposition: form-data; name=\"f\"\r\n\r\n".to_vec();
+    payload.extend(std::iter::repeat(b'x').take(n));
+    payload.extend_from_slice(b"\r\n--B--\r\n");
+    let mut rq = format!("PUT /multipart HTTP/1.1\r\nHost: replay\r\nConnection: close\r\nContent-Type: multipart/form-data; boundary=B\r\nContent-Length: {}\r\n\r\n", payload.len()).into_bytes();
+    rq.extend_from_slice(&payload);
+    SEEN_MAX.store(0, Ordering::SeqCst);
+    let resp = crate::live::serve_raw(api, default, vec![vec![rq]]);
+    let seen_max = SEEN_MAX.load(Ordering::SeqCst);
+    match resp.into_iter().next().flatten() {
+        None => json!({"status": 0, "seen_max": seen_max, "body_len": payload.len()}),
+        Some(r) => json!({"status": r.status, "seen_max": seen_max, "body_len": payload.len()}),
+    }
+}
+
 /// {"op":"body","chunks":[n..],"default":n,"override":n|null,"extractor":"untyped"|"streaming"|"typed"}
 fn op_body(case: &Value) -> Value {
     let chunks: Vec<usize> = case["chunks"].as_array().unwrap().iter().map(|x| x.as_u64().unwrap() as usize).collect();
@@ -281,23 +327,28 @@ fn op_body(case: &Value) -> Value {
     } else {
         vec![b'x'; total]
     };
-    let mut writes: Vec<Vec<u8>> = vec![format!(
-        "PUT /{} HTTP/1.1\r\nHost: replay\r\nConnection: close\r\nContent-Type: application/json\r\nTransfer-Encoding: chunked\r\n\r\n",
-        ext
-    )
-    .into_bytes()];
+    let content_length = case["framing"].as_str() == Some("content-length");
+    let mut writes: Vec<Vec<u8>> = vec![if content_length {
+        format!("PUT /{} HTTP/1.1\r\nHost: replay\r\nConnection: close\r\nContent-Type: application/json\r\nContent-Length: {}\r\n\r\n", ext, total).into_bytes()
+    } else {
+        format!("PUT /{} HTTP/1.1\r\nHost: replay\r\nConnection: close\r\nContent-Type: application/json\r\nTransfer-Encoding: chunked\r\n\r\n", ext).into_bytes()
+    }];
     let mut off = 0;
     for c in &chunks {
         if *c == 0 {
             continue;
         }
-        let mut w = format!("{:x}\r\n", c).into_bytes();
+        let mut w = if content_length { vec![] } else { format!("{:x}\r\n", c).into_bytes() };
         w.extend_from_slice(&payload[off..off + c]);
-        w.extend_from_slice(b"\r\n");
+        if !content_length {
+            w.extend_from_slice(b"\r\n");
+        }
         off += c;
         writes.push(w);
     }
-    writes.push(b"0\r\n\r\n".to_vec());
+    if !content_length {
+        writes.push(b"0\r\n\r\n".to_vec());
+    }
     SEEN_MAX.store(0, Ordering::SeqCst);
     let resp = crate::live::serve_raw(api, default, vec![writes]);
     let seen_max = SEEN_MAX.load(Ordering::SeqCst);
